@@ -101,6 +101,10 @@ def run(ctx, rep):
             rep.count("rerun:" + kind, (kind, cfg["seed"]))
             rep.hist("kind", kind)
             compare(tr, tr2, rep, where, "same integer seed")
+            # random numbers consumed BETWEEN constructing the optimizer and calling fit() must not matter either
+            tr5 = LT.run_trace(dict(cfg, _between_build_and_fit=lambda: perturb(ctx.rng)))
+            rep.traces += 1
+            compare(tr, tr5, rep, where, "draws / another run between construction and fit()")
             # RandomState in the same state
             perturb(ctx.rng)
             orig_build = LT.build
